@@ -115,5 +115,27 @@ let fs = []; for i in 10.times() { let s = 'c' + i.str(); fs.push(|| s + '!'); }
 ]
 
 
+def wide_programs():
+    """boundary-width programs: more than 256 module symbols / constants / fields / methods, so that 16 bit operands above 255 occur"""
+    out = []
+    n = 300
+    decl = "".join("let v%d = %d;\n" % (i, i) for i in range(n))
+    body = ""
+    for k in (0, 1, 43, 44, 255):
+        w = k + 256 if k + 256 < n else k
+        body += "v%d = 7; let r%d = v%d + 1; print(r%d);\nv%d = v%d + v%d; print(v%d, v%d);\n" % (k, k, w, k, w, w, k, w, k)
+    body += "fn g() { v0 = 9; let a = v256 + v0; v256 = 1; let b = v0 + v256; return [a, b, v257, v1]; }\nprint(g());\n"
+    out.append(("wide_modsyms", {"/v/main.lay": decl + body}, "/v/main.lay"))
+    consts = "fn f() { let l = [" + ", ".join("%d.5" % i for i in range(n)) + "]; return l[1] + l[257] + l[299]; }\nprint(f());\n"
+    out.append(("wide_consts", {"/v/main.lay": consts}, "/v/main.lay"))
+    fields = "class W { init() { " + " ".join("self.f%d = %d;" % (i, i) for i in range(256)) + " } sum() { return self.f1 + self.f254 + self.f255; } set() { self.f1 = 5; self.f255 = 6; return self.f1 + self.f255; } }\nlet w = W(); print(w.sum(), w.set(), w.f1, w.f255, w.f0, w.f128);\n"
+    out.append(("wide_fields", {"/v/main.lay": fields}, "/v/main.lay"))
+    methods = "class M { " + " ".join("m%d() { return %d; }" % (i, i) for i in range(n)) + " }\nlet m = M(); print(m.m1(), m.m257(), m.m299(), m.m0(), m.m256());\n"
+    out.append(("wide_methods", {"/v/main.lay": methods}, "/v/main.lay"))
+    names = "".join("let n%d = {'k%d': %d}; print(n%d.len(), n%d['k%d']);\n" % (i, i, i, i, i, i) for i in range(0, n, 7))
+    out.append(("wide_names", {"/v/main.lay": decl + names}, "/v/main.lay"))
+    return out
+
+
 def rich():
-    return [(name, {"/v/main.lay": src.strip() + "\n"}, "/v/main.lay") for name, src in RICH]
+    return [(name, {"/v/main.lay": src.strip() + "\n"}, "/v/main.lay") for name, src in RICH] + wide_programs()
